@@ -16,6 +16,8 @@ import DracoProofs.EbSplitFreeLink
 import DracoProofs.EbFinal6
 import DracoProofs.EbFinal7
 import DracoProofs.EbNoSLink
+import DracoProofs.EbTraceS4
+import DracoProofs.EbConnGlueS2
 import DracoProofs.EbStartFaceCount
 import DracoProofs.EbCTIsoComplete
 /-
@@ -1239,6 +1241,72 @@ example : NoSLink.tetraConn.startFaces = #[true] ∧
       NoSLink.tetraEncode (by decide +kernel) (by decide +kernel) (by decide +kernel) (by decide +kernel)
       (by decide +kernel)
     exact ⟨mesh, h1, h2⟩⟩
+
+/-- **eb_connectivity_roundtrip_withS_partial** — the connectivity link for ARBITRARY runs of the standard traversal without
+    attribute data, S symbols and topology split events included, RESTRICTED BY ONE NAMED HYPOTHESIS about the decoder loop:
+    `hrun : ConnGlueS.DecLoopIsoS conn` := there is ONE `co` such that `connLoop ⟨num_faces, num_encoded_vertices + num_split_symbols,
+    num_symbols, the split events (decoder order), true⟩ tr = .ok co` for every reader state `tr` delivering the reversed symbols
+    and the start-face bits, and `CTIso conn.ct conn.processed num_faces co.c2v co.opp`.  Everything at the STREAM level is
+    proved from the run: the byte layout incl. the split-event data (`encode_bytes_S`, `runs_splitEvents`: the decoder reads the
+    events in reversed encoding order), `EvsOK conn.splits` and `splits.size ≤ symbols.size` (`evs_of_run`, from the encoder-side
+    `EncTraceS.events_of_run`), all symbols topological, `num_split_symbols ≤ num_symbols`; left: the decoder's domain checks
+    (`hnf`, `hnv`, `hedge`, `hsz2`).  `DecLoopIsoS` is a THEOREM for runs without S (`NoSLink.decLoopIso_of_run` +
+    `decLoopIsoS_of_noS`, instance below).  For runs WITH S its parts are proved separately (DracoProofs, see notes/ebenc.md
+    "Follow-up 6"): the pure decoder state with S and split events is `CTIso` to the encoder's table
+    (`eb_connectivity_withS_pure_partial` below), `connMain` computes the pure state given the per-symbol guards
+    (`DecSim.connMain_StS`), `CTIso` is invariant under the compaction's renumbering (`Compact.ctIso_renumber`); not yet
+    connected: the guards of the relabelling walk from the invariant, `connStart` after S, the loop of `connCompact`, and on the
+    encoder's side the no-event left neighbour, `comps`, `¬ FanEarlier` of `TraceS`. -/
+theorem eb_connectivity_roundtrip_withS_partial (ch : ConnChoices) (pf : Faces) (conn : ConnEnc)
+    (h : encodeConnectivity ch false pf #[] = .ok conn)
+    (hnf : conn.processed.size ≤ 2 ^ 21)
+    (hnv : conn.ct.numVertices - conn.ct.numIsolated + conn.numSplitSymbols ≤ 3 * 2 ^ 21)
+    (hedge : 3 * conn.processed.size / 2 ≤
+      (conn.ct.numVertices - conn.ct.numIsolated) * (conn.ct.numVertices - conn.ct.numIsolated - 1) / 2)
+    (hsz2 : conn.processed.size ≤ conn.symbols.size + conn.symbols.size / 3)
+    (hrun : ConnGlueS.DecLoopIsoS conn) :
+    ∃ mesh, Runs decodeConnectivity 514 ([0] ++ conn.bytes) mesh 514 ∧
+      ctIso conn.ct conn.processed mesh.numFaces mesh.c2v mesh.opp = true ∧
+      CTIso conn.ct conn.processed mesh.numFaces mesh.c2v mesh.opp ∧ mesh.atts.size = conn.atts.size := by
+  obtain ⟨mesh, h1, h2, h3⟩ := ConnGlueS.eb_connectivity_roundtrip_withS' ch pf conn h hnf hnv hedge hsz2 hrun
+  exact ⟨mesh, h1, CTIsoComplete.ctIso_complete h2, h2, h3⟩
+
+/-- non-vacuity (a run WITHOUT S: the tetrahedron; the decoder-loop hypothesis is the theorem `NoSLink.decLoopIso_of_run`) -/
+example : ∃ mesh, Runs decodeConnectivity 514 ([0] ++ NoSLink.tetraConn.bytes) mesh 514 ∧
+    ctIso NoSLink.tetraConn.ct NoSLink.tetraConn.processed mesh.numFaces mesh.c2v mesh.opp = true := by
+  obtain ⟨mesh, h1, h2, _⟩ := eb_connectivity_roundtrip_withS_partial exCh.conn NoSLink.tetra NoSLink.tetraConn
+    NoSLink.tetraEncode (by decide +kernel) (by decide +kernel) (by decide +kernel) (by decide +kernel)
+    (ConnGlueS.decLoopIsoS_of_noS _ _ _ NoSLink.tetraEncode (by decide +kernel)
+      (NoSLink.decLoopIso_of_run _ _ _ NoSLink.tetraEncode (by decide +kernel)))
+  exact ⟨mesh, h1, h2⟩
+
+/-- **eb_connectivity_withS_pure_partial** — WITH S symbols and topology split events, at the level of the decoder's PURE
+    state: for a table `t` with the invariants of `CornerTable.create` (`TblOK`), gate corners `P`, symbols and split events in
+    decoder order satisfying the abstract encoder trace `TraceS` (per face: which neighbours are decoded earlier / later; for S:
+    the right neighbour is the previous face, the left neighbour is the component below on the decoder's stack or the corner a
+    split event names, and the tip's fan is not completed by this face), without interior start face (`hn`), the pure decoder
+    run `StS` (steps `stepE/R/L/C/S`, `mergeV`, `applySplits`) builds tables `CTIso` (and `ctIso = true`) to `t`.  Invariant:
+    the decoder's `opp` is the induced sub-table of the encoder's on the faces decoded so far (`OInv.stepS`), the vertex
+    invariant is UNCHANGED by the merge (`vinv_stepS`, `vN_ne_vP` from the `¬ FanEarlier` clause), the stack / `splitActive`
+    invariant `StkInv` through all five symbols. -/
+theorem eb_connectivity_withS_pure_partial {t : CT} {P : Array Nat} {syms : List Nat} {evs : List TopoSplit}
+    {starts : List (Bool × Nat)} (hT : Coverage.TblOK t) (hTr : DecSim.TraceS t P syms evs starts)
+    (hn : P.size = syms.length) (maxV : Nat)
+    (hcov : ∀ d, d < 3 * P.size → ∃ k, iter (AttViews.sRP t.opp) k t.vc[t.c2v[phi P d]!]! = phi P d)
+    (hvlt : ∀ d, d < 3 * P.size → t.c2v[phi P d]! < t.numVertices) :
+    CTIso t P P.size (DecSim.StS syms evs P.size maxV syms.length).c2v (DecSim.StS syms evs P.size maxV syms.length).opp ∧
+    ctIso t P P.size (DecSim.StS syms evs P.size maxV syms.length).c2v (DecSim.StS syms evs P.size maxV syms.length).opp = true :=
+  ⟨DecSim.ctIso_StS_closed hT hTr hn maxV hcov hvlt, DecSim.ctIso_StS_closed_check hT hTr hn maxV hcov hvlt⟩
+
+/-- non-vacuity WITH a genuine topology split event: the annulus (3×3 quad grid minus the middle quad, 16 faces; the model's own
+    run, `TraceS` by kernel evaluation on it): one split event, and the pure decoder state is `CTIso` to the encoder's table -/
+example : DecSim.annConn.splits.size = 1 ∧
+    CTIso DecSim.annConn.ct DecSim.annConn.processed DecSim.annConn.processed.size
+      (DecSim.StS DecSim.annConn.symbols.toList.reverse DecSim.annConn.splits.toList.reverse DecSim.annConn.processed.size 19
+        DecSim.annConn.symbols.toList.reverse.length).c2v
+      (DecSim.StS DecSim.annConn.symbols.toList.reverse DecSim.annConn.splits.toList.reverse DecSim.annConn.processed.size 19
+        DecSim.annConn.symbols.toList.reverse.length).opp :=
+  DecSim.annulusPure
 
 end ConnectivityLink
 
